@@ -43,6 +43,8 @@ var props = map[string]propSpec{
 	"C01": {Scenarios: []string{"csync"}},
 	"C02": {Scenarios: []string{"csync"}},
 	"C03": {Scenarios: []string{"bcast"}},
+	"C06": {Scenarios: []string{"keyedset"}},
+	"C07": {Scenarios: []string{"keyedrun", "keyedset"}},
 	"C04": {Scenarios: []string{"routine"}},
 	"C05": {Scenarios: []string{"routine"}},
 	"C14": {Scenarios: []string{"routine14"}},
